@@ -21,6 +21,8 @@ TRUSTED = []
 TAG = "common::cluster::SlotRangeTag"
 
 MUTANTS = [
+    {"name": "peer-migrating-ranges-dropped", "edits": [{"file": "src/proxy/cluster.rs", "old": "        slot_map: HashMap<String, Vec<SlotRange>>,\n        active_redirection: bool,\n    ) -> Self {\n        let remote_backend = if active_redirection {\n            Some(SenderMap::from_slot_map(sender_factory, &slot_map))\n        } else {\n", "new": "        slot_map: HashMap<String, Vec<SlotRange>>,\n        active_redirection: bool,\n    ) -> Self {\n        // A peer that is the source of a migration still carries the `migrating` ranges\n        // while the destination peer carries the same slots as `importing` ranges.\n        // Other nodes can't see the migration state so for them the importing node\n        // always owns these slots (see `should_ignore_slots`).\n        // Drop the migrating ranges of the peers so that the same slots are not\n        // present twice and the redirection table does not depend on the map order.\n        let slot_map: HashMap<String, Vec<SlotRange>> = slot_map\n            .into_iter()\n            .map(|(addr, ranges)| {\n                let ranges = ranges\n                    .into_iter()\n                    .filter(|slot_range| !slot_range.tag.is_migrating())\n                    .collect();\n                (addr, ranges)\n            })\n            .collect();\n\n        let remote_backend = if active_redirection {\n            Some(SenderMap::from_slot_map(sender_factory, &slot_map))\n        } else {\n"}], "expect": "C14.D3:peer-ranges-lossless"},
+    {"name": "slots-reply-spans-first-to-last", "file": "src/proxy/cluster.rs", "old": "            for range in slot_range.get_range_list().get_ranges().iter() {\n", "new": "            for range in slot_range.get_range_list().get_ranges().first().into_iter() {\n", "expect": "C14.D3:range-list-walked"},
     {"name": "migrating-arm-eq", "file": "src/proxy/cluster.rs", "old": "migration_states.get(range.get_range_list()).cloned() != Some(MigrationState::PreCheck)", "new": "migration_states.get(range.get_range_list()).cloned() == Some(MigrationState::PreCheck)", "expect": "C14.D1"},
     {"name": "importing-arm-preswitch", "file": "src/proxy/cluster.rs", "old": "migration_states.get(range.get_range_list()).cloned() == Some(MigrationState::PreCheck)", "new": "migration_states.get(range.get_range_list()).cloned() == Some(MigrationState::PreSwitch)", "expect": "C14.D1"},
     {"name": "nodes-helper-no-filter", "file": "src/proxy/cluster.rs", "old": "                if should_ignore_slots(slot_range, migration_states) {\n                    return None;\n                }\n", "new": "", "expect": "C14.D3"},
